@@ -14,11 +14,12 @@ def put(name, text):
 k = json.load(open('/verif/known_findings.json'))['findings']
 groups = {}
 for f in k:
-    key = f.get('commit') or ('open:' + f['signature'])
+    # one row per repair commit; open findings: one row per (property, description)
+    key = f.get('commit') or ('open:' + f['property'] + ':' + f['what_fails'][:80])
     g = groups.setdefault(key, {'props': [], 'whats': [], 'status': f['status'], 'commit': f.get('commit'), 'n': 0})
     if f['property'] not in g['props']: g['props'].append(f['property'])
     w = f['what_fails'].replace('|', '/').replace('\n', ' ')
-    if w not in g['whats'] and not w.startswith('same'): g['whats'].append(w)
+    if w not in g['whats'] and (not w.startswith('same') or not g['commit']): g['whats'].append(w)
     g['n'] += 1
 rows = ['| properties | status | commit in /repo | what failed (exact signatures: known_findings.json) | signatures |', '|---|---|---|---|---|']
 order = subprocess.check_output(['git', '-C', '/repo', 'log', '--format=%h', '--reverse', 'bf71e0d..HEAD'], text=True).split()
